@@ -1,0 +1,46 @@
+//go:build verif
+
+// Copyright Istio Authors
+//
+// Licensed under the Apache License, Version 2.0 (the "License");
+// you may not use this file except in compliance with the License.
+// You may obtain a copy of the License at
+//
+//     http://www.apache.org/licenses/LICENSE-2.0
+//
+// Unless required by applicable law or agreed to in writing, software
+// distributed under the License is distributed on an "AS IS" BASIS,
+// WITHOUT WARRANTIES OR CONDITIONS OF ANY KIND, either express or implied.
+// See the License for the specific language governing permissions and
+// limitations under the License.
+
+package multicluster
+
+import (
+	"go.uber.org/atomic"
+
+	"istio.io/istio/pkg/cluster"
+	"istio.io/istio/pkg/kube"
+)
+
+// Accessor for the verification harness (property C09). Add-only, no behaviour change; compiled
+// only with the build tag `verif`.
+
+// VerifUpdate delivers a cluster *update* (same ID, new client) to every registered component, the
+// way the secret controller does on a kubeconfig rotation, and returns what the handlers returned
+// (the pending swaps; calling HasSynced on them finalizes a swap once the new component synced).
+func (f *Fake) VerifUpdate(id cluster.ID, client kube.Client, stop chan struct{}) []ComponentConstraint {
+	var out []ComponentConstraint
+	for _, handler := range f.handlers {
+		out = append(out, handler.clusterUpdated(&Cluster{
+			ID:                       id,
+			Client:                   client,
+			kubeConfigSha:            [32]byte{},
+			stop:                     stop,
+			initialSync:              atomic.NewBool(false),
+			initialSyncTimeout:       atomic.NewBool(false),
+			remoteClusterCollections: atomic.NewPointer[remoteClusterCollections](nil),
+		}))
+	}
+	return out
+}
